@@ -24,7 +24,7 @@ RULE = ("Hypothesis draws a corpus string s (with the locale a loose autodetect 
 ASSUMPTIONS = ["frozen clock, default settings (one settings hash per DEFAULT_LANGUAGES list)",
                "for a language whose lang-REGION code is not listed, the plain language is what 'selecting the region' can mean (the reported locale is lang-REGION exactly when that code is listed)",
                "experiment D resets LocaleDataLoader's class-level caches before the call so that an earlier clean load cannot mask a misbuilt locale"]
-ESSENTIAL = ["tz-word-string", "exp:A", "exp:B", "exp:C", "exp:D", "given-order", "default-languages", "region:partly-invalid", "differs-between-languages"]
+ESSENTIAL = ["regional-own-name", "tz-word-string", "exp:A", "exp:B", "exp:C", "exp:D", "given-order", "default-languages", "region:partly-invalid", "differs-between-languages"]
 
 NOW = dt.datetime(2015, 6, 15, 10, 30)
 _corpus = []
@@ -142,6 +142,19 @@ def _check(case, exp, s, cls):
         lang = lang_of(loc)
         region = loc[len(lang) + 1:]
         cls.append("regional")
+        if case.get("own_name"):
+            # a month name that only this regional locale lists: the base language is used first (per-language caches are
+            # shared), then the locale must still understand its own name
+            key_, name_ = case["own_name"]
+            base_names = data.raw_info(lang).get(key_, [])
+            if base_names:
+                _parser(languages=[lang]).get_date_data("12 %s 2020" % base_names[0])
+            own = _res(_parser(locales=[loc]).get_date_data(s))
+            want_own = dt.datetime(2020, data.MONTHS.index(key_) + 1, 12)
+            cls.append("regional-own-name")
+            if own[0] != want_own or own[2] != loc:
+                return fail("regional-own-name", "locales=[%r] on %r (its own name for %s, after the base language was used) -> %r, expected %r"
+                            % (loc, s, key_, own, want_own), (s, loc, "C-own"))
         by_locale = _res(_parser(locales=[loc]).get_date_data(s))
         by_region = _res(_parser(languages=[lang], region=region).get_date_data(s))
         key = (s, loc, "C")
@@ -194,6 +207,26 @@ def _check(case, exp, s, cls):
                         % (langs, region, multi, seq, [singles[e] for e in seq], want), key)
         return {"ok": True, "key": key, "cls": cls}
     raise ValueError(exp)
+
+
+_owners = []
+
+
+def _own_names():
+    """[(regional locale, month key, name)] for month names listed only by the regional locale (single meaning, not a C05 finding
+    class: no digits)"""
+    if not _owners:
+        from checks import c05
+        for loc, lang in data.all_locales():
+            if loc == lang:
+                continue
+            spec = data.raw_info(lang).get("locale_specific", {}).get(loc, {})
+            ok = {(k, n) for k, n in c05.names_for(loc, True, True)}
+            for key in data.MONTHS:
+                for name in spec.get(key, []):
+                    if (key, name) in ok and name not in data.raw_info(lang).get(key, []) and not any(ch.isdigit() for ch in name):
+                        _owners.append((loc, key, name))
+    return _owners
 
 
 _tzwords = []
@@ -250,6 +283,12 @@ def cases(draw):
         if L != detected:
             c["s"] = draw(st.sampled_from(["02-03-2016", "12/11/10", "3 2016", "10.05.1999 10:00"]))
         c["locale"] = draw(st.sampled_from(lld[L]))
+        if draw(st.booleans()):
+            # regional locales that add month names of their own (fr-CA 'juill', ...)
+            owners = _own_names()
+            if owners:
+                loc2, key2, name2 = draw(st.sampled_from(owners))
+                c["locale"], c["own_name"], c["s"] = loc2, [key2, name2], "12 %s 2020" % name2
     elif exp == "D":
         lld = data.language_locale_dict()
         k = draw(st.integers(1, 4))
